@@ -30,14 +30,20 @@ MODS = ["y := len([1, 2]) + int(\"3\")\nreturn {n: y, f: func(s) { return string
 
 def builtin_heavy(rng, g):
     """scripts that mention builtins in every position: calls, shadowing declarations, constant
-    expressions for the optimizer, nested functions, destructuring, imports"""
-    b = lambda: rng.choice(BUILTIN_POOL[:12])
-    lines = ["out := []"]
+    expressions for the optimizer, nested functions, destructuring, imports; statements in random order
+    (a shadowing declaration of one builtin before or after the calls of another); returns the source
+    and the builtins it calls"""
+    called = []
+    def b(call=False):
+        n = rng.choice(BUILTIN_POOL[:12])
+        if call: called.append(n)
+        return n
+    head, lines = ["out := []"], []
     if rng.random() < .5:
         # a literal constant in scope: the compiler then folds unary / binary expressions while compiling
-        lines.append(rng.choice(["const kc = 1", "const (\n\tkz = iota\n\tkc\n)", "const kc = \"s\""]))
+        head.append(rng.choice(["const kc = 1", "const (\n\tkz = iota\n\tkc\n)", "const kc = \"s\""]))
         for _ in range(rng.randrange(1, 4)):
-            bn = b()
+            bn = b(True)
             arg = rng.choice(['"12"', '"abc"', "3", "[1]"])
             use = rng.choice(["kc + %s(%s)" % (bn, arg), "-%s(%s)" % (bn, arg), "%s(%s) == kc" % (bn, arg), "!%s(%s)" % (bn, arg)])
             lines.append(rng.choice(["f%d := func() { return %s }\nout = append(out, f%d())" % (0, "%s", 0),
@@ -46,19 +52,21 @@ def builtin_heavy(rng, g):
                                      "for i := 0; i < 1; i++ { out = append(out, %s) }",
                                      "out = append(out, %s)"]).replace("f0", "f%d" % rng.randrange(99)) % use)
     for _ in range(rng.randrange(2, 7)):
-        k = rng.randrange(10)
-        if k == 0: lines.append("out = append(out, %s(%s))" % (b(), rng.choice(['"12"', "[1, 2]", "3", '"ab"'])))
-        elif k == 1: lines.append("c%d := %s(\"7\") + %s([1])" % (rng.randrange(99), "int", "len"))
-        elif k == 2: lines.append("f%d := func(%s) { return %s(%s) }" % (rng.randrange(99), b(), b(), "1"))
+        k = rng.randrange(12)
+        if k == 0: lines.append("out = append(out, %s(%s))" % (b(True), rng.choice(['"12"', "[1, 2]", "3", '"ab"'])))
+        elif k == 1: lines.append("c%d := %s(\"7\") + %s([1])" % (rng.randrange(99), "int", "len")); called.extend(["int", "len"])
+        elif k == 2: lines.append("f%d := func(%s) { return %s(%s) }" % (rng.randrange(99), b(), b(True), "1"))
         elif k == 3: lines.append("%s := func(x) { return x }" % b())
         elif k == 4: lines.append("for _, %s in [1] { out = append(out, %s) }" % (b(), b()))
-        elif k == 5: lines.append("try { throw %s(\"e\") } catch %s { out = append(out, 1) }" % ("error", b()))
+        elif k == 5: lines.append("try { throw %s(\"e\") } catch %s { out = append(out, 1) }" % ("error", b())); called.append("error")
         elif k == 6: lines.append("x%d, y%d := [1, 2]" % (rng.randrange(99), rng.randrange(99)))
         elif k == 7: lines.append("m%d := import(\"%s\")" % (rng.randrange(99), rng.choice(["m1", "m2"])))
-        elif k == 8: lines.append("const k%d = %s(\"12\")" % (rng.randrange(99), "int"))
-        else: lines.append("out = append(out, func() { return %s([1, 2, 3]) }())" % b())
-    lines.append("return out")
-    return "\n".join(lines) + "\n"
+        elif k == 8: lines.append("const k%d = %s(\"12\")" % (rng.randrange(99), "int")); called.append("int")
+        elif k == 9: lines.append("%s := %d" % (b(), rng.randrange(9)))
+        elif k == 10: lines.append("y%d := %s(%s)" % (rng.randrange(99), b(True), rng.choice(['"abc"', '"12"', "[1, 2]"])))
+        else: lines.append("out = append(out, func() { return %s([1, 2, 3]) }())" % b(True))
+    rng.shuffle(lines)
+    return "\n".join(head + lines + ["return out"]) + "\n", called
 
 def run(rep, br, proofs, rng, tier):
     nseq = 3000 if tier == "quick" else 60000
@@ -79,8 +87,13 @@ def run(rep, br, proofs, rng, tier):
     g = proggen.Gen(rng, max_depth=2, modules=("m1", "m2"))
     pcases = []
     for i in range(nprog):
-        src = builtin_heavy(rng, g) if rng.random() < .7 else g.program()
+        if rng.random() < .7: src, called = builtin_heavy(rng, g)
+        else: src, called = g.program(), []
         dis_names = rng.sample(BUILTIN_POOL, rng.randrange(1, 6))
+        if called and rng.random() < .7:
+            # disable builtins the script really calls
+            for nm in rng.sample(sorted(set(called)), min(len(set(called)), rng.randrange(1, 3))):
+                if nm not in dis_names: dis_names.append(nm)
         mode = "eval" if rng.random() < .3 else "batch"
         if mode == "eval":
             ls = src.strip().split("\n")
